@@ -34,6 +34,10 @@ Ee(e) == [k |-> "E", v |-> e]
 Cc    == [k |-> "C", v |-> 0]
 
 Outcomes == [nv : 0..MaxVals, end : {"C", "E"}]
+\* C14: ONE attempt that emits a value and then NEVER ENDS, below a downstream Take(1): the stream completes on that value, the attempt is
+\* released and the Subscribe call that was waiting for the attempt inside the pipeline returns
+NeverEnding == <<[nv |-> 1, end |-> "O"]>>
+Open == outs # <<>> /\ outs[1].end = "O"
 \* an attempt beyond the scripted ones completes empty
 Out(i) == IF i <= Len(outs) THEN outs[i] ELSE [nv |-> 0, end |-> "C"]
 ValsOf(i) == [j \in 1..Out(i).nv |-> Nn(10 * i + j)]
@@ -44,9 +48,9 @@ IsRetry == o.op = "Retry"
 
 Init ==
   /\ o \in Ops
-  /\ outs \in UNION {[1..n -> Outcomes] : n \in 0..MaxAttempts}
-  /\ conds \in (IF o.op \in {"DoWhile", "While"} THEN UNION {[1..n -> BOOLEAN] : n \in 1..MaxAttempts} ELSE {<<>>})
-  /\ cancelAt \in (IF o.op = "Retry" THEN 0..Len(outs) ELSE {0})
+  /\ outs \in UNION {[1..n -> Outcomes] : n \in 0..MaxAttempts} \cup (IF o.op = "While" THEN {} ELSE {NeverEnding})
+  /\ conds \in (IF o.op \in {"DoWhile", "While"} /\ ~(outs # <<>> /\ outs[1].end = "O") THEN UNION {[1..n -> BOOLEAN] : n \in 1..MaxAttempts} ELSE {<<>>})
+  /\ cancelAt \in (IF o.op = "Retry" /\ ~(outs # <<>> /\ outs[1].end = "O") THEN 0..Len(outs) ELSE {0})
   /\ a = 0 /\ retries = 0 /\ out = <<>> /\ nsubs = 0 /\ live = 0 /\ state = "run"
 
 Finish(extra) == out' = out \o extra /\ state' = "done" /\ live' = 0 /\ UNCHANGED <<a, retries, nsubs>>
@@ -75,7 +79,9 @@ Start ==
 RunAttempt ==
   /\ state = "run" /\ live = 1
   /\ LET oc == Out(a)  vs == ValsOf(a)  failed == oc.end = "E" IN
-     CASE o.op = "Retry" ->
+     CASE oc.end = "O" ->    \* the never-ending attempt under Take(1): first value, completion, everything released
+            /\ out' = out \o <<vs[1], Cc>> /\ state' = "done" /\ live' = 0 /\ UNCHANGED retries
+       [] o.op = "Retry" ->
             LET r1 == IF o.r /\ oc.nv > 0 THEN 0 ELSE retries          \* every delivered value resets the count when so configured
                 r2 == IF failed THEN r1 + 1 ELSE r1
             IN IF ~failed THEN /\ out' = out \o vs \o <<Cc>> /\ state' = "done" /\ live' = 0 /\ retries' = r2
@@ -106,5 +112,5 @@ Bounded == a <= MaxAttempts + 2
 \* only cases whose scripted outcomes were all meaningful are emitted (no unused outcome, no unused condition value)
 Done == state = "done"
 EmitCase == (Done /\ nsubs >= Len(outs) /\ (~NeedsConds \/ Len(conds) <= nsubs + 1)) =>
-              PrintT(ToJson([o |-> o, outs |-> outs, conds |-> conds, cancelAt |-> cancelAt, exp |-> [log |-> out, nsubs |-> nsubs]]))
+              PrintT(ToJson([o |-> o, outs |-> outs, conds |-> conds, cancelAt |-> cancelAt, open |-> Open, exp |-> [log |-> out, nsubs |-> nsubs]]))
 =============================================================================
